@@ -7,6 +7,12 @@ keyed maps, defaults, previously computed values, expiries) into real dictables,
 with a COUNTING function F (it records every argument tuple it receives; pyg-base is not instrumented),
 projects what came back and compares it with == against what TLC printed (S2C) or hands it to the trace
 specification (C2S).
+
+Spelling of keys (see Perdictable.tla): every row of a table of the abstract configuration carries `sp`, the number of
+the object by which that table spells its key.  The driver renders (key column, key number, sp) by ONE Python object
+per call - equal numbers = the very same object in every table, different numbers = different objects, of types drawn
+from what pyg-base's own order ranks equal (int / float / numpy scalars; any two NaN; date / datetime / datetime64 of one
+day) - and reads the keys of a result back as key numbers whatever their spelling.
 """
 import datetime, json, logging, os, random
 from harness.enc import tag, untag
@@ -15,32 +21,106 @@ from harness.core import Machinery
 NAMES = ['a', 'b', 'c', 'd']
 BASE = datetime.datetime(2020, 1, 1)
 # key columns: name -> how an abstract key number is rendered (every rendering is strictly monotone)
-COLKIND = {'k': 'int', 'j': 'str', 'when': 'date'}
+COLKIND = {'k': 'int', 'j': 'str', 'when': 'date',
+           # key columns whose keys have several spellings: numbers (int / float / numpy scalars); the same with the GREATEST
+           # key number of the call rendered as NaN (the library ranks NaN above every number); with the LEAST one rendered as
+           # None (ranked below every number); both; days (datetime / date / numpy.datetime64)
+           'num': 'num', 'q': 'numnan', 'z': 'numnan', 'opt': 'optnum', 'wild': 'wild', 'day': 'day'}
 ON_MENU = {1: [['k'], ['j'], ['when']],
            2: [['k', 'j'], ['j', 'k'], ['when', 'k'], ['k', 'when'], ['when', 'j'], ['j', 'when']]}   # abstract position p <-> on[p]
+SP_MENU = {1: [['q'], ['num'], ['wild'], ['opt'], ['q'], ['day']],
+           2: [['q', 'num'], ['num', 'q'], ['wild', 'j'], ['opt', 'day'], ['z', 'q'], ['day', 'wild'], ['k', 'q'], ['q', 'when']]}
+MENUS = [ON_MENU, SP_MENU]
 FORMS = ['own', 'data', 'single', 'extra', 'renamed']
 PAST_ORD, FUTURE_ORD = 730120, 1094998      # 2000-01-01, 2999-01-01 as in MC_Perdictable.tla
 
 
-def render_key(col, n):
+def on_of(c, form):
+    menu = MENUS[form.get('menu', 0)][c['nk']]
+    return list(menu[form['on'] % len(menu)])
+
+
+def nature(col, p, n, form):
+    """what the key number n of key column p is rendered as: 'nan' / 'none' (the greatest / least key number of the call in a
+    column that has them), else the kind of the column"""
     kind = COLKIND[col]
-    if kind == 'int':
-        return int(n)
-    if kind == 'str':
-        return 'x%03d' % n
-    return BASE + datetime.timedelta(days=int(n))
+    if kind in ('numnan', 'wild') and n == form['hi'][p]:
+        return 'nan'
+    if kind in ('optnum', 'wild') and n == form['lo'][p]:
+        return 'none'
+    return 'num' if kind in ('numnan', 'optnum', 'wild') else kind
 
 
-def unrender_key(col, v):
-    """inverse of render_key; -1 for anything that is not a rendered key"""
+# constructors of the spellings of one key; every call builds a NEW object (None and small ints are singletons of the
+# interpreter: for them different spellings are one object, which is more sameness than the model promises, never less)
+SPELLINGS = {
+    'int': [lambda n: int(n)],
+    'str': [lambda n: 'x%03d' % n],
+    'date': [lambda n: BASE + datetime.timedelta(days=int(n))],
+    'none': [lambda n: None],
+    'num': [lambda n: int(n), lambda n: float(n), lambda n: __import__('numpy').int64(n), lambda n: __import__('numpy').float64(n),
+            lambda n: __import__('numpy').int32(n), lambda n: __import__('numpy').float32(n), lambda n: __import__('numpy').uint8(n)],
+    'nan': [lambda n: float('nan'), lambda n: __import__('numpy').float64('nan'), lambda n: -float('nan'),
+            lambda n: float('inf') - float('inf'), lambda n: __import__('numpy').float32('nan')],
+    'day': [lambda n: BASE + datetime.timedelta(days=int(n)), lambda n: (BASE + datetime.timedelta(days=int(n))).date(),
+            lambda n: __import__('numpy').datetime64((BASE + datetime.timedelta(days=int(n))).date()),
+            lambda n: __import__('numpy').datetime64(BASE + datetime.timedelta(days=int(n)))],
+}
+
+
+class Speller(object):
+    """(key column, key number, spelling number) -> the Python object, one object per triple for the lifetime of the speller;
+    which type a spelling number gets is drawn per (column, key number) from form['spsalt'] (+ shift), injectively while
+    there are types left"""
+    def __init__(self, form, shift=0):
+        self.form, self.shift, self.memo = form, shift, {}
+
+    def obj(self, col, p, n, sp):
+        key = (col, n, sp)
+        if key not in self.memo:
+            makers = SPELLINGS[nature(col, p, n, self.form)]
+            order = list(range(len(makers)))
+            random.Random('%s/%s/%s/%s' % (self.form.get('spsalt', 0), self.shift, col, n)).shuffle(order)
+            self.memo[key] = makers[order[sp % len(order)]](n)
+        return self.memo[key]
+
+
+def unrender_key(col, v, p, form):
+    """inverse of the rendering, whatever the spelling; -1 for anything that is not a rendered key"""
+    import numpy as np
     kind = COLKIND[col]
     if kind == 'int':
         return v if type(v) is int and 0 <= v < 1000 else -1
     if kind == 'str':
         return int(v[1:]) if isinstance(v, str) and len(v) == 4 and v[0] == 'x' and v[1:].isdigit() else -1
-    if isinstance(v, datetime.datetime) and v >= BASE and (v - BASE).seconds == 0:
-        return (v - BASE).days
-    return -1
+    if kind == 'date':
+        return (v - BASE).days if isinstance(v, datetime.datetime) and v >= BASE and (v - BASE).seconds == 0 else -1
+    if kind == 'day':
+        if isinstance(v, np.datetime64):
+            v = v.astype('datetime64[us]').astype(datetime.datetime)
+        if isinstance(v, datetime.date) and not isinstance(v, datetime.datetime):
+            v = datetime.datetime(v.year, v.month, v.day)
+        return (v - BASE).days if isinstance(v, datetime.datetime) and v >= BASE and (v - BASE).seconds == 0 and v.microsecond == 0 else -1
+    if v is None:
+        return form['lo'][p] if kind in ('optnum', 'wild') and nature(col, p, form['lo'][p], form) == 'none' else -1
+    if isinstance(v, (bool, np.bool_)) or not isinstance(v, (int, float, np.integer, np.floating)):
+        return -1
+    if v != v:
+        return form['hi'][p] if kind in ('numnan', 'wild') else -1
+    return int(v) if 0 <= v < 1000 and v == int(v) and nature(col, p, int(v), form) == 'num' else -1
+
+
+def with_extent(form, *configs):
+    """the least / greatest key number per key column over all tables of the configurations (they are rendered as None / NaN
+    in the columns that have them): part of the rendering, kept in the form so that a replay renders alike"""
+    nk = configs[0]['nk']
+    ns = [[] for _ in range(nk)]
+    for c in configs:
+        for x in list(c['ins']) + [c['data'], c['expiry']]:
+            for r in x['rows']:
+                for p in range(nk):
+                    ns[p].append(r['key'][p])
+    return dict(form, lo=[min(v) if v else 0 for v in ns], hi=[max(v) if v else 0 for v in ns])
 
 
 def make_f(n, sig=0):
@@ -54,7 +134,7 @@ def make_f(n, sig=0):
     return ns['f'], calls
 
 
-def make_table(on, rows, extra, rng, keycols='shuffle'):
+def make_table(on, rows, extra, rng, keycols='shuffle', speller=None):
     """a dictable with key columns `on` and the columns of `extra` = {column: [values per row]}; rows shuffled; columns
     shuffled, or the key columns first in the order of `on` ('same') or against it ('reverse')"""
     from pyg_base import dictable
@@ -71,16 +151,17 @@ def make_table(on, rows, extra, rng, keycols='shuffle'):
     for col in cols:
         if col in on:
             p = on.index(col)
-            data[col] = [render_key(col, rows[i]['key'][p]) for i in idx]
+            data[col] = [speller.obj(col, p, rows[i]['key'][p], rows[i].get('sp', 0)) for i in idx]
         else:
             data[col] = [extra[col][i] for i in idx]
     return dictable(data)
 
 
-def render(c, form, rng, data_obj=None):
+def render(c, form, rng, data_obj=None, speller=None):
     """abstract configuration -> keyword arguments of the real calls (data_obj: a real earlier result to pass as `data`)"""
     nk = c['nk']
-    on = list(ON_MENU[nk][form['on'] % len(ON_MENU[nk])])
+    on = on_of(c, form)
+    speller = speller or Speller(form)
     inputs, renames, defaults = {}, {}, {}
     for i, x in enumerate(c['ins']):
         nm = NAMES[i]
@@ -102,7 +183,7 @@ def render(c, form, rng, data_obj=None):
         else:
             extra = {'col_' + nm: vals, 'noise': list(range(len(vals)))}
             renames[nm] = 'col_' + nm
-        inputs[nm] = make_table(on, x['rows'], extra, rng, form.get('keycols', 'shuffle'))
+        inputs[nm] = make_table(on, x['rows'], extra, rng, form.get('keycols', 'shuffle'), speller)
     all_scalar = all(x['kind'] == 'scalar' for x in c['ins'])
     cache = {}
     for what, style in (('data', form['data']), ('expiry', form['expiry'])):
@@ -113,21 +194,23 @@ def render(c, form, rng, data_obj=None):
             cache[what] = untag(x['v'])                  # one expiry for every row
         elif x['kind'] == 'keyed':
             col = what if (what == 'data' or style % 2 == 0) else 'data'
-            cache[what] = make_table(on, x['rows'], {col: [untag(r['v']) for r in x['rows']]}, rng)
+            extra = {col: [untag(r['v']) for r in x['rows']]}
+            if style % 3 == 2:                             # the cache has a further column (as an input table may)
+                extra['noise'] = list(range(len(x['rows'])))
+            cache[what] = make_table(on, x['rows'], extra, rng, speller=speller)
         elif style % 3 == 1:
             cache[what] = None
         elif style % 3 == 2 and not all_scalar:
-            cache[what] = make_table(on, [], {what: []}, rng)      # nothing computed / no expiries: an empty table
+            cache[what] = make_table(on, [], {what: []}, rng, speller=speller)      # nothing computed / no expiries: an empty table
     on_arg = on[0] if (nk == 1 and form['on'] % 2 == 0) else on
     return on, on_arg, inputs, renames, defaults, cache
 
 
-def project(res, on, names, api, data_obj):
+def project(res, on, names, api, form):
+    """what came back, by content (that it is the very object passed as `data` is recorded next to it, see observe)"""
     from pyg_base import dictable
     if res is None:
         return {'kind': 'none'}
-    if data_obj is not None and res is data_obj:
-        return {'kind': 'data'}
     if not isinstance(res, dictable):
         return {'kind': 'value', 'v': tag(res)}
     cols = list(dict.keys(res))
@@ -146,7 +229,7 @@ def project(res, on, names, api, data_obj):
     roles += sorted(col for col in cols if col not in seen and col not in valcols)
     rows = []
     for r in range(n):
-        row = {'key': [unrender_key(col, lists[col][r]) for col in seen]}
+        row = {'key': [unrender_key(col, lists[col][r], on.index(col), form) for col in seen]}
         if api == 'run':
             row['v'] = tag(lists['data'][r]) if valcols else ['o', 'missing']
         else:
@@ -176,28 +259,34 @@ def observe(job):
     # with defaults=None the code reads them as the defaults, which the statement does not speak of
     sig = lambda defaults: min(form.get('sig', 0), len(names)) if dargs(defaults) is not None else 0
     data_obj = None
+    speller = Speller(form)
     if job.get('first') is not None:
-        on, on_arg, inputs, renames, defaults, _ = render(job['first'], form, rng)
+        on, on_arg, inputs, renames, defaults, _ = render(job['first'], form, rng, speller=speller)
         f0, _calls0 = make_f(len(names), sig(defaults))
         try:
             res1 = perdictable(f0, on=on_arg, renames=renames or None, defaults=dargs(defaults))(**inputs)
         except Exception as e:        # the first call already fails: it is the observation
             return {'api': 'run', 'c': job['first'], 'today': today, 'form': form, 'salt': job['salt'], 'chained': False,
-                    'alpha': on == sorted(on), 'out': {'kind': 'exc', 'cls': type(e).__name__},
+                    'alpha': on == sorted(on), 'out': {'kind': 'exc', 'cls': type(e).__name__}, 'same': False,
                     'calls': [[tag(v) for v in args] for args in _calls0]}
-        p1 = project(res1, on, names, 'run', None)
+        p1 = project(res1, on, names, 'run', form)
         if isinstance(res1, dictable) and p1['kind'] == 'table':
             data_obj = res1
-            rows = sorted(p1['rows'], key=lambda r: r['key'])
+            # the rows of the real object: its keys are spelt as they came back (sp 0 = "as returned")
+            rows = sorted([dict(r, sp=0) for r in p1['rows']], key=lambda r: r['key'])
             plan = job['plan']
             if plan[0].startswith('scalar_'):           # one expiry for all the rows (every row of the second call is cached)
                 expiry = {'kind': 'scalar', 'rows': [], 'v': EXPIRY_OF[plan[0][7:]](today, len(rows))}
             else:
-                exp = [{'key': r['key'], 'v': EXPIRY_OF[st](today, n)} for n, r in enumerate(rows)
+                exp = [{'key': r['key'], 'sp': n % 3 if form.get('menu') else 0, 'v': EXPIRY_OF[st](today, n)} for n, r in enumerate(rows)
                        for st in [plan[n % len(plan)]] if st != 'absent']
                 expiry = {'kind': 'keyed', 'rows': exp, 'v': ["n", 0]} if exp else {'kind': 'absent', 'rows': [], 'v': ["n", 0]}
             c = dict(c, data={'kind': 'keyed', 'rows': rows, 'v': ["n", 0]}, expiry=expiry)
-    on, on_arg, inputs, renames, defaults, cache = render(c, form, rng, data_obj)
+            # the second call is made on the same key objects as the first, on new objects of the same types ("the cache
+            # comes back from storage"), or on new objects of other types
+            how = form.get('respell', 0) % 3
+            speller = speller if how == 0 else Speller(form, shift=how - 1)
+    on, on_arg, inputs, renames, defaults, cache = render(c, form, rng, data_obj, speller)
     f, calls = make_f(len(names), sig(defaults))
     o = {'api': api, 'c': c, 'today': today, 'form': form, 'salt': job['salt'], 'chained': data_obj is not None,
          'alpha': on == sorted(on)}          # `on` names the key columns in alphabetical order
@@ -209,9 +298,11 @@ def observe(job):
             res = p(**inputs, **cache)
         else:
             res = join(inputs, on_arg, renames or None, dargs(defaults))
-        o['out'] = project(res, on, names, api, cache.get('data'))
+        o['out'] = project(res, on, names, api, form)
+        o['same'] = res is not None and res is cache.get('data')         # the very object that was passed as `data`
     except Exception as e:
         o['out'] = {'kind': 'exc', 'cls': type(e).__name__}
+        o['same'] = False
     if api == 'run':
         o['calls'] = [[tag(v) for v in args] for args in calls]
     return o
@@ -235,19 +326,30 @@ def bag(xs):
     return sorted(json.dumps(x, sort_keys=True) for x in xs)
 
 
-def mk_form(rng, n):
-    return {'on': rng.randrange(12), 'ins': [rng.randrange(len(FORMS)) for _ in range(n)],
+def mk_form(rng, c, spelled=None, first=None):
+    """a rendering of configuration c (chained: of `first` and c): spelled = the key columns come from SP_MENU (several
+    spellings per key, NaN / None keys), by default for one form in five"""
+    n = len(c['ins'])
+    form = {'on': rng.randrange(12), 'ins': [rng.randrange(len(FORMS)) for _ in range(n)],
             'data': rng.randrange(6), 'expiry': rng.randrange(6), 'defs': rng.randrange(2),
             'sig': rng.randrange(n + 1), 'keycols': rng.choice(['shuffle', 'same', 'reverse'])}
+    form['menu'] = int(rng.random() < 0.2) if spelled is None else int(spelled)
+    form['on'] = rng.randrange(24) if form['menu'] else form['on']
+    form['spsalt'], form['respell'] = rng.randrange(1 << 20), rng.randrange(3)
+    return with_extent(form, *([c] if first is None else [first, c]))
 
 
-def alpha_form(rng, n, nk, keycols):
-    """a rendering in which `on` is alphabetical (there the order of the rows is pinned) with the given stored column order"""
-    form = mk_form(rng, n)
-    while ON_MENU[nk][form['on'] % len(ON_MENU[nk])] != sorted(ON_MENU[nk][form['on'] % len(ON_MENU[nk])]):
+def alpha_form(rng, c, keycols, spelled=False):
+    """a rendering in which `on` is alphabetical with the given stored column order"""
+    form = mk_form(rng, c, spelled)
+    while on_of(c, form) != sorted(on_of(c, form)):
         form['on'] += 1
     form['keycols'] = keycols
     return form
+
+
+def spelled_cfg(c):
+    return any(r.get('sp', 0) for x in list(c['ins']) + [c['data'], c['expiry']] for r in x['rows'])
 
 
 def describe(c):
@@ -261,12 +363,13 @@ def describe(c):
             'lists' if all(v[0] == 'l' for v in olds) else 'dicts' if all(v[0] == 'm' for v in olds) else 'other'
     return {'kind': kind, 'nk': c['nk'], 'n': len(c['ins']), 'tables': len(tabs),
             'cached': c['data']['kind'] == 'keyed', 'expiries': c['expiry']['kind'],
+            'keys': 'respelt' if spelled_cfg(c) else 'one_object_per_key',     # some table spells a key by another object than the others
             'cached_shape': shape}     # what every previously computed value looks like: pairs / lists / dicts / other
 
 
 def case_of(o):
     d = describe(o['c'])
-    d.update({'api': o['api'], 'alpha': o['alpha'], 'form': o['form'], 'salt': o.get('salt'), 'chained': bool(o.get('chained')), 'c': o['c']})
+    d.update({'api': o['api'], 'alpha': o['alpha'], 'key_columns': on_of(o['c'], o['form']), 'form': o['form'], 'salt': o.get('salt'), 'chained': bool(o.get('chained')), 'c': o['c']})
     if o.get('chained'):
         d.update({'first': o['first'], 'plan': o['plan']})
     return d
@@ -301,9 +404,12 @@ def s2c(ctx, cases, label):
         for api in ('run', 'join'):
             if api == 'join' and (c['data']['kind'] != 'absent' or c['expiry']['kind'] != 'absent'):
                 continue
-            forms = [mk_form(rng, n)]
+            if spelled_cfg(c):                                # tables that spell their keys differently: always key columns with spellings
+                forms = [mk_form(rng, c, True), mk_form(rng, c, True)]
+            else:
+                forms = [mk_form(rng, c)]
             if nk == 2 and c['data']['kind'] == 'absent':     # where the order of `on` is pinned: stored column order with / against `on`
-                forms += [alpha_form(rng, n, nk, 'reverse'), alpha_form(rng, n, nk, 'same')]
+                forms += [alpha_form(rng, c, 'reverse', spelled_cfg(c)), alpha_form(rng, c, 'same', spelled_cfg(c))]
             for form in forms:
                 jobs.append({'c': c, 'api': api, 'form': form, 'salt': rng.randrange(1 << 30)})
                 wants.append(case)
@@ -313,7 +419,8 @@ def s2c(ctx, cases, label):
         ctx.evals += 1
         if o['api'] == 'run':
             accepted = case['run']['alpha' if o['alpha'] else 'other']
-            ok = o['out'] in accepted and bag(o['calls']) == bag(case['calls'])
+            # the result by content, or (it is the very object passed as `data`) as that
+            ok = (o['out'] in accepted or (o['same'] and {'kind': 'data'} in accepted)) and bag(o['calls']) == bag(case['calls'])
             want = {'one_of': accepted, 'calls': case['calls']}
         else:
             accepted = case['join']['alpha' if o['alpha'] else 'other']
@@ -328,6 +435,8 @@ def s2c(ctx, cases, label):
     ctx.sample({'s2c_' + label: obs[len(obs) // 2]})
     judge(ctx, failing)
     ctx.extra.setdefault('s2c_cases', {})[label] = len(cases)
+    ctx.extra.setdefault('s2c_replays_on_respelt_keys', {})[label] = sum(1 for o in obs if spelled_cfg(o['c']))
+    ctx.extra.setdefault('s2c_replays_with_nan_or_none_keys', {})[label] = sum(1 for o in obs if o['form'].get('menu'))
     ctx.extra.setdefault('s2c_rows_kept_from_cache', {})[label] = sum(c['nkept'] for c in cases)
 
 
@@ -395,6 +504,12 @@ def rand_cfg(rng, today):
                     rows.append({'key': k, 'v': ["n", 0]})
             if rows:
                 expiry = {'kind': 'keyed', 'rows': rows, 'v': ["n", 0]}
+    # how the tables spell their keys: one object per key everywhere / one class of objects per table / any object per cell
+    style = rng.choice(['plain', 'plain', 'per_table', 'per_table', 'per_cell'])
+    for x in ins + [data, expiry]:
+        cls = rng.randrange(3)
+        for r in x['rows']:
+            r['sp'] = 0 if style == 'plain' else cls if style == 'per_table' else rng.randrange(4)
     return {'nk': nk, 'ins': ins, 'defs': defs, 'data': data, 'expiry': expiry}
 
 
@@ -423,9 +538,11 @@ def corrupt(o, rng):
     """a copy of an accepted observation with one field falsified (the trace specification must reject it)"""
     o = json.loads(json.dumps(o))
     rows = o['out']['rows']
-    how = rng.choice(['drop_row', 'value', 'call']) if o['api'] == 'run' else rng.choice(['drop_row', 'value'])
+    how = rng.choice(['drop_row', 'dup_row', 'value', 'call']) if o['api'] == 'run' else rng.choice(['drop_row', 'dup_row', 'value'])
     if how == 'drop_row':
         rows.pop(rng.randrange(len(rows)))
+    elif how == 'dup_row':                  # the same key a second time (as if one of its spellings had been taken for another key)
+        rows.append(json.loads(json.dumps(rows[rng.randrange(len(rows))])))
     elif how == 'value':
         r = rows[rng.randrange(len(rows))]
         if o['api'] == 'run':
@@ -443,17 +560,19 @@ def c2s(ctx, nconf):
     for _ in range(nconf):
         c = rand_cfg(ctx.rng, today)
         n = len(c['ins'])
-        jobs.append({'c': c, 'api': 'run', 'form': mk_form(ctx.rng, n), 'salt': ctx.rng.randrange(1 << 30)})
+        sp = True if spelled_cfg(c) else None
+        jobs.append({'c': c, 'api': 'run', 'form': mk_form(ctx.rng, c, sp), 'salt': ctx.rng.randrange(1 << 30)})
         cj = dict(c, data={'kind': 'absent', 'rows': [], 'v': ["n", 0]}, expiry={'kind': 'absent', 'rows': [], 'v': ["n", 0]})
-        jobs.append({'c': cj, 'api': 'join', 'form': mk_form(ctx.rng, n), 'salt': ctx.rng.randrange(1 << 30)})
+        jobs.append({'c': cj, 'api': 'join', 'form': mk_form(ctx.rng, cj, sp), 'salt': ctx.rng.randrange(1 << 30)})
     for _ in range(nconf // 2):
         first, second, plan = rand_chain(ctx.rng, today)
-        jobs.append({'c': second, 'first': first, 'plan': plan, 'api': 'run', 'form': mk_form(ctx.rng, len(second['ins'])),
+        jobs.append({'c': second, 'first': first, 'plan': plan, 'api': 'run',
+                     'form': mk_form(ctx.rng, second, True if spelled_cfg(first) or spelled_cfg(second) else None, first),
                      'salt': ctx.rng.randrange(1 << 30)})
     obs = pmap(jobs)
     ctx.evals += len(obs)
     # binding self-check: a few falsified copies of real observations ride along and must all be rejected
-    good = [o for o in obs if o['out'].get('kind') == 'table']
+    good = [o for o in obs if o['out'].get('kind') == 'table' and not o['same']]
     fakes = [corrupt(o, ctx.rng) for o in ctx.rng.sample(good, min(6, len(good)))]
     bad = ctx.validate('Trace_Perdictable', obs + fakes)
     rejected = {i for i, _ in bad}
@@ -468,11 +587,14 @@ def c2s(ctx, nconf):
             raise Machinery('driver error %s on %s' % (clause, json.dumps(o)[:600]))
         ctx.violation(clause, case_of(o), {'observed': o['out'], 'calls': o.get('calls')})
     for o in obs:
-        if o['out'].get('kind') == 'table':
+        if o['out'].get('kind') == 'table' and not o['same']:
             ctx.note(('c2s', json.dumps(o['c'], sort_keys=True), o['api']))
     ctx.sample({'c2s_observation': next((o for o in obs if o['api'] == 'run' and o['out'].get('kind') == 'table' and o['c']['expiry']['kind'] == 'keyed'), obs[0])})
     ctx.extra['c2s_outcome_kinds'] = {k: sum(1 for o in obs if o['out'].get('kind') == k) for k in sorted({o['out'].get('kind') for o in obs})}
     ctx.extra['c2s_chained_calls'] = sum(1 for o in obs if o.get('chained'))
+    ctx.extra['c2s_calls_on_respelt_keys'] = sum(1 for o in obs if spelled_cfg(o['c']))
+    ctx.extra['c2s_calls_with_nan_or_none_keys'] = sum(1 for o in obs if o['form'].get('menu'))
+    ctx.extra['c2s_data_object_returned'] = sum(1 for o in obs if o.get('same'))
     ctx.extra['c2s_rows_kept_from_cache'] = sum(1 for o in obs if o['api'] == 'run' and o['out'].get('kind') == 'table'
                                                 and len(o['calls']) < len(o['out']['rows']))
 
@@ -514,8 +636,9 @@ def run(ctx):
         wide = [c for c in cases if c['size'][:3] == [3, 3, 1]]              # 3 inputs over 3 keys: a seeded sample in the quick tier
         rest = [c for c in cases if c['size'][:3] != [3, 3, 1]]
         s2c(ctx, rest + ctx.rng.sample(wide, min(1500, len(wide))), 'gen_quick')
+        s2c(ctx, ctx.generate('MC_Perdictable', 'MC_Perdictable_gen_spell_quick.cfg'), 'gen_spell_quick')
     else:
-        for g in ['gen_join', 'gen_cache', 'gen_cache2', 'gen_values', 'gen_join4']:
+        for g in ['gen_join', 'gen_cache', 'gen_cache2', 'gen_values', 'gen_join4', 'gen_spell']:
             s2c(ctx, ctx.generate('MC_Perdictable', 'MC_Perdictable_%s.cfg' % g), g)
     c2s(ctx, 400 if q else 4000)
     ctx.extra['driver_parent_cpu_s'] = round(time.process_time() - c0, 1)     # the serial part of the driver (TLC and the pool excluded)
